@@ -1,5 +1,6 @@
 //@@ unit c15_mapper properties=C15,C01 bounded=sse_decoder.chunking_invariant_events_do_not_depend_on_chunk_boundaries
 #![allow(unused_imports, dead_code, unused_variables, unused_mut)]
+#![feature(allocator_api)]
 use vstd::prelude::*;
 
 //@@ include prelude/kernel_model.rs
@@ -75,6 +76,26 @@ impl EventFrameMapper {
             forall|i: int| 0 <= i < ret@.len() ==> (#[trigger] ret@[i]).seq == old(self).seq + i,     // [map.frames_numbered_consecutively]
             final(self).seq == old(self).seq + ret@.len(),                                     // [map.counter_advances_by_frame_count]
             final(self).session_id@ == old(self).session_id@,
+    //@@ end
+}
+
+// ---- parsing one SSE data block into a ParsedEvent: the payload that is kept is the payload that was parsed ------------------
+#[derive(Clone, Copy)]
+pub struct ValidationOptions { pub normalize_missing_item_ids: bool }
+#[verifier::external_body] pub fn vfmt() -> String { unimplemented!() }        // R9
+#[verifier::external_body] pub fn normalize_event_for_validation(v: &Value) -> Value { unimplemented!() }
+#[verifier::external_body] pub fn validate_stream_event(v: &Value) -> Result<(), Vec<String>> { unimplemented!() }
+#[verifier::external_body] pub fn validate_response_resource(v: &Value) -> Result<(), Vec<String>> { unimplemented!() }
+#[verifier::external_body] pub fn type_name_of(v: &Value) -> Option<&str> { unimplemented!() }
+#[verifier::external_body] pub fn response_of(v: &Value) -> Option<&Value> { unimplemented!() }
+pub assume_specification<T, A: std::alloc::Allocator, I: IntoIterator<Item = T>>[ <Vec<T, A> as Extend<T>>::extend ](v: &mut Vec<T, A>, i: I);
+impl ParsedEvent {
+    //@@ fn crates/rip-provider-openresponses/src/lib.rs ParsedEvent::event rules=R9
+    //@@ rewrite {id}.get("type").and_then(|v| v.as_str()) => type_name_of(&{id})
+    //@@ rewrite {id}.get("response") => response_of(&{id})
+    //@@ sig
+        ensures
+            ret.kind is Event && ret.data == Some(data) && ret.raw == raw && ret.event == event,     // [parsed_event.keeps_the_payload_unchanged]
     //@@ end
 }
 
